@@ -18,6 +18,7 @@ import (
 	"reflect"
 	"sort"
 	"strings"
+	"time"
 	"unsafe"
 )
 
@@ -40,9 +41,9 @@ type event struct {
 
 // Point records one scheduling decision.
 type PointRec struct {
-	Enabled []int  // thread ids in canonical order (running thread first when still enabled)
-	Chosen  int    // index into Enabled
-	Loc     string // where the *chosen* thread was parked
+	Enabled        []int  // thread ids in canonical order (running thread first when still enabled)
+	Chosen         int    // index into Enabled
+	Loc            string // where the *chosen* thread was parked
 	RunningEnabled bool
 }
 
@@ -54,9 +55,9 @@ type access struct {
 }
 
 type Race struct {
-	Obj          string
-	A, B         string // locations
-	TA, TB       int
+	Obj            string
+	A, B           string // locations
+	TA, TB         int
 	WriteA, WriteB bool
 }
 
@@ -80,25 +81,25 @@ type region struct {
 
 // Exec is the state of one execution.
 type Exec struct {
-	threads []*thread
-	cur     *thread
-	yield   chan event
-	Points  []PointRec
-	parked  map[int]string // where each thread is parked
-	prefix  []int
-	objs    map[string][]access
-	Races   []Race
-	raceKey map[string]bool
-	regions []*region
-	RegionWrites map[string][]string // region -> "thread@loc" list
-	Diverged string
-	Deadlock bool
-	steps   int
-	globals []Global
+	threads        []*thread
+	cur            *thread
+	yield          chan event
+	Points         []PointRec
+	parked         map[int]string // where each thread is parked
+	prefix         []int
+	objs           map[string][]access
+	Races          []Race
+	raceKey        map[string]bool
+	regions        []*region
+	RegionWrites   map[string][]string // region -> "thread@loc" list
+	Diverged       string
+	Deadlock       bool
+	steps          int
+	globals        []Global
 	GlobalsChanged []string
-	gHash   []uint64
-	mHash   []uint64
-	locs    map[int]string
+	gHash          []uint64
+	mHash          []uint64
+	locs           map[int]string
 }
 
 var active *Exec
@@ -691,16 +692,19 @@ func (e *Exec) Choices() []int {
 // ---------------------------------------------------------------- explorer
 
 type Stats struct {
-	Schedules     int
-	Points        int
-	MaxPoints     int
-	BoundDone     int
-	Truncated     bool
-	Outcomes      map[string]int
+	Schedules int
+	Points    int
+	MaxPoints int
+	BoundDone int
+	Truncated bool
+	Outcomes  map[string]int
 }
 
 // Explore enumerates all executions with at most bound preemptions (iteratively 0..bound) and calls check on each.
 // setup must build a fresh, deterministic instance every time. check returns a canonical outcome string.
+// Deadline, when set, truncates explorations (Stats.Truncated) instead of letting them run on; it is a budget, never an oracle.
+var Deadline time.Time
+
 func Explore(bound int, maxSchedules int, setup func(e *Exec) []func(), check func(e *Exec) string) *Stats {
 	st := &Stats{Outcomes: map[string]int{}, BoundDone: -1}
 	globals := Globals()
@@ -723,7 +727,7 @@ func Explore(bound int, maxSchedules int, setup func(e *Exec) []func(), check fu
 			if x.Diverged != "" {
 				panic("sched: " + x.Diverged)
 			}
-			if maxSchedules > 0 && st.Schedules >= maxSchedules {
+			if (maxSchedules > 0 && st.Schedules >= maxSchedules) || (!Deadline.IsZero() && time.Now().After(Deadline)) {
 				st.Truncated = true
 				return false
 			}
